@@ -1,6 +1,6 @@
 (* C02 — cross-validated distances are the mean of between-fold products only. *)
 From Coq Require Import List ZArith Reals Bool.
-From RSA Require Import Prelude Vec VecR ListLib CalcModel CalcProofs CvModel CvProofs.
+From RSA Require Import Prelude Vec VecR ListLib CalcModel CalcProofs CvModel CvProofs CvMeansProofs.
 Import ListNotations.
 Open Scope R_scope.
 
@@ -38,6 +38,28 @@ Theorem C02_diagonal_removed : forall (g : Z -> R) f l, NoDup l -> In f l ->
   sum ROps (map g l) = g f + sum ROps (map g (filter (fun m => negb (Z.eqb m f)) l)).
 Proof. exact rsum_filter_neq. Qed.
 Print Assumptions C02_diagonal_removed.
+
+(* from rows to fold-wise means: when condition c is observed r > 0 times in each of the other folds, the training mean the code
+   computes (mean over all rows of the other folds) is the mean of the other folds' condition means -- every other fold
+   contributes with equal weight, the left-out fold not at all *)
+Theorem C02_training_mean_is_mean_of_fold_means : forall (p r : nat) (conds folds : list Z) (rows : list (list R)) (c f : Z),
+  length conds = length rows -> length folds = length rows -> Forall (fun x => length x = p) rows ->
+  (0 < r)%nat ->
+  let others := filter (fun f' => negb (Z.eqb f' f)) (sort_uniq folds) in
+  others <> [] ->
+  (forall f', In f' others ->
+     length (rows_where (fun c' f'' => Z.eqb c' c && Z.eqb f'' f') conds folds rows) = r) ->
+  train_mean ROps p conds folds rows c f
+  = vmean ROps p (map (fun f' => test_mean ROps p conds folds rows c f') others).
+Proof. exact train_mean_is_mean_of_fold_means. Qed.
+Print Assumptions C02_training_mean_is_mean_of_fold_means.
+
+Theorem C02_mean_of_equal_groups : forall (p r : nat) (gs : list (list (list R))),
+  (0 < r)%nat -> gs <> [] ->
+  Forall (fun g => length g = r /\ Forall (fun x => length x = p) g) gs ->
+  vmean ROps p (concat gs) = vmean ROps p (map (vmean ROps p) gs).
+Proof. exact mean_of_equal_groups. Qed.
+Print Assumptions C02_mean_of_equal_groups.
 
 (* conditions are labelled by the sorted distinct values of the condition descriptor *)
 Theorem C02_labels : forall lab,
